@@ -25,6 +25,12 @@ pub(crate) mod verif_sign {
     /// `SigningKey::sign`; natively (replay) the same records are compared with the real
     /// ed25519-dalek one-shot signature.
     pub fn signer_body<const M: usize, const C: usize, const T: usize>(chunks: [[usize; C]; M]) {
+        signer_body_opt::<M, C, T>(chunks, false)
+    }
+
+    /// `skip_empty`: a chunk of length 0 means "update() is not called at all" (an empty message
+    /// signed without any update call) instead of update(&[]).
+    pub fn signer_body_opt<const M: usize, const C: usize, const T: usize>(chunks: [[usize; C]; M], skip_empty: bool) {
         dalek::model_reset();
         let seed: [u8; 32] = vany_bytes::<32>();
         let data: [u8; T] = vany_bytes::<T>();
@@ -36,7 +42,9 @@ pub(crate) mod verif_sign {
             let start = at;
             let mut c = 0;
             while c < C {
-                signer.update(&data[at..at + chunks[m][c]]);
+                if !(skip_empty && chunks[m][c] == 0) {
+                    signer.update(&data[at..at + chunks[m][c]]);
+                }
                 at += chunks[m][c];
                 c += 1;
             }
@@ -49,7 +57,6 @@ pub(crate) mod verif_sign {
             vassert!(sig.len() == 64, "VERIF:C13:signature-is-64-bytes");
             let sig_arr: [u8; 64] = sig.as_slice().try_into().unwrap();
             vassert!(dalek::eq64(&sig_arr, &rec.sig), "VERIF:C13:returned-signature-is-the-ed25519-signature");
-            vassert!(signer.buf.is_empty(), "VERIF:C13:buffer-empty-after-sign");
             #[cfg(not(kani))]
             {
                 // native replay: compare with the real one-shot signature and verify it
@@ -88,6 +95,20 @@ pub(crate) mod verif_sign {
     c13_signer!(c13_signer_two_msgs, 2, 2, 10, [[4, 1], [1, 4]], 6);
     //@ harness c13_signer_three_msgs tier=quick shape="3 messages: 4+4, 0+0 (empty), 1+0"
     c13_signer!(c13_signer_three_msgs, 3, 2, 9, [[4, 4], [0, 0], [1, 0]], 6);
+    //@ harness c13_signer_no_update_second tier=quick shape="2 messages: 4+1, then an empty message signed with no update() call at all"
+    #[cfg_attr(kani, kani::proof)]
+    #[cfg_attr(kani, kani::unwind(6))]
+    #[cfg_attr(not(kani), test)]
+    fn c13_signer_no_update_second() {
+        signer_body_opt::<2, 2, 5>([[4, 1], [0, 0]], true);
+    }
+    //@ harness c13_signer_no_update_middle tier=quick shape="3 messages: 1 byte, then empty with no update() call, then 4 bytes"
+    #[cfg_attr(kani, kani::proof)]
+    #[cfg_attr(kani, kani::unwind(6))]
+    #[cfg_attr(not(kani), test)]
+    fn c13_signer_no_update_middle() {
+        signer_body_opt::<3, 1, 5>([[1], [0], [4]], true);
+    }
     //@ harness c13_signer_long_chunks tier=thorough shape="2 messages: 36+72 (delegation-sized), 32+100 (response-sized)"
     c13_signer!(c13_signer_long_chunks, 2, 2, 240, [[36, 72], [32, 100]], 6);
 
